@@ -241,6 +241,9 @@ func cmdCheck(args []string) int {
 		notes[n] = true
 	}
 	errs = append(errs, lr.Errs...)
+	if *prop == "C10" {
+		all = append(all, runOwnerAnalysis(P, S, *prop)...)
+	}
 	enumObls, enumErrs := runEnumerations(P, S, *prop)
 	all = append(all, enumObls...)
 	errs = append(errs, enumErrs...)
@@ -308,7 +311,7 @@ func cmdCheck(args []string) int {
 		}
 		if o.Known != nil && o.knownPart == "inside" {
 			// expected to fail
-			if o.Status == "sat" || o.Status == "unknown" {
+			if o.Status == "sat" || o.Status == "unknown" || o.Status == "unbound" {
 				knownLines = append(knownLines, fmt.Sprintf("KNOWN-FINDING: property=%s %s [obligation %s]", *prop, o.Known.What, o.Name))
 			} else if o.Status == "unsat" {
 				knownLines = append(knownLines, fmt.Sprintf("STALE-FINDING: property=%s obligation %s now holds inside the recorded witness; remove the entry: %s", *prop, o.Name, o.Known.What))
